@@ -12,7 +12,7 @@ from . import _c05_reg as R
 from . import _c05_tensor as CT
 from ._c05_reg import op
 
-S = gen.build_sptensor
+S = R.CS.build_sptensor
 
 
 @st.composite
@@ -445,7 +445,7 @@ def _(ctx, c):
     if c["fkind"] == "sptensor":
         factor = S(c["factor"])
     else:
-        F = gen.arr_F(fshape, c["factor"]).copy(order="F")
+        F = R.CS.aux(c, gen.arr_F(fshape, c["factor"]).copy(order="F"))
         factor = F if c["fkind"] == "ndarray" else ttb.tensor(F, tuple(fshape))
     ctx.label("factor-" + c["fkind"])
     d = R.as_form(c["dims"], c["form"])
